@@ -739,6 +739,13 @@ fn gen_and_record<T: Sc>(mode: &str, count: usize, rng: &mut StdRng) -> Vec<RunO
                     rs.y = DMatrix::from_element(rs.y.nrows(), rs.y.ncols(), T::zero());
                     rs.label = format!("{} zero-observations", rs.label);
                 }
+                if i % 29 == 7 || i % 29 == 19 {
+                    // a non-finite observation: the objective is not a number and the optimizer must give up
+                    // with a numerical failure - reported as a failure, never as a success
+                    let v = if i % 29 == 7 { f64::NAN } else { f64::INFINITY };
+                    rs.y[(1, 0)] = T::of64(v);
+                    rs.label = format!("{} non-finite observation", rs.label);
+                }
                 outs.push(record_run(&rs));
             }
         }
